@@ -168,6 +168,7 @@ impl<'tcx> Interp<'tcx> {
                             arr.over.insert(i, v);
                         }
                         arr.compress();
+                        arr.tag = self.source_tag(st, &base, s0, n as i128).map(|t| Rc::from(t.as_str()));
                         return Val::Arr(Rc::new(arr));
                     }
                     return self.top_of(t, 0);
